@@ -23,7 +23,7 @@ RULE = ('grid (complete in both tiers): int x size {none,8,16,24,32,64} x unsign
         'limit+1} x max in {none,-1,0,1,100,implied limit,limit-1} x Required/Optional; float and Decimal min,max in {none,-1,0,1,'
         '0.0,-0.0,fractions (Decimal: incl. 0.1, -0.7, 1.1),extremes; int- and exact-typed} (Decimal x 5 precision/scale pairs); str max_len {none,1,2,5,40} x '
         'autostrip {absent,True,False} x Required/Optional/nullable; bool; py_check callables; unique and '
-        'PrimaryKey variants; default values (plain and callable) on and across bounds. random: hypothesis declarations with '
+        'PrimaryKey variants; default values (plain and callable) on and across bounds; sql_default/volatile variants (missing value unspecified, all other rules unchanged); canonical integer strings given to int attributes. random: hypothesis declarations with '
         'bounds to +-2^63 / 1e300 / any scale plus extra random candidates. A case is one (declaration, candidate value) pair '
         'evaluated on all paths (constructor, assignment, set(), get/exists/select/filter/where[/E[v]]); candidates are the '
         'values on, +-1/+-2 steps around every declared or size-implied bound, fixed probes, None, \'\' and whitespace; '
@@ -37,13 +37,14 @@ ASSUMPTIONS = ['SQLite in-memory through pony.orm.dbproviders.sqlite (other prov
                'a numeric input of another numeric type denotes the same number in the declared type: int -> float(v), '
                'int -> Decimal(v), float -> Decimal(repr(v)) (shortest round-trip string, Python semantics); not stated in the '
                'documentation, taken from the evident intent of the converters and the pinned suite (Required(Decimal, default=0))',
+               'str(n) given to an int attribute denotes n (canonical literals only); sql_default/volatile only exempt a missing value',
                'Decimal candidates are limited to values representable at the declared precision/scale (<= 15 digits); '
                'float lookups allow neighbours within relative 1e-12 (pony compares floats with a tolerance)']
 SHARDS = {'quick': 4, 'thorough': 16}
 MIN_EVALS = {'quick': 40000, 'thorough': 400000}
 CLASS_FLOORS = {'verdict:reject': 0.15, 'verdict:accept': 0.25, 'nontrivial': 0.10, 'zero_bound': 0.05, 'random': 0.05,
                 'py_check': 0.03, 'key': 0.03, 'has_default': 0.03, 'coerced:float->Decimal': 0.02,
-                'coerced:float->Decimal:not_binary': 0.01, 'coerced:int->Decimal': 0.01, 'coerced:int->float': 0.01}
+                'coerced:float->Decimal:not_binary': 0.01, 'coerced:int->Decimal': 0.01, 'coerced:int->float': 0.01, 'coerced:str->int': 0.03, 'db_filled': 0.02}
 EXHAUSTIVE = {'quick': True, 'thorough': True}
 
 LOOKUPS = ('get', 'exists', 'select', 'filter', 'where')
@@ -107,6 +108,25 @@ def grid():
                 if nullable is not None: o['nullable'] = nullable
                 out.append(_spec(kind, 'str', o))
                 out.append(_spec(kind, 'str', o, py_check='has_x'))
+    # attributes whose missing value the database supplies (sql_default / volatile): every other rule is unchanged
+    SQLDEF = {'str': "'zz'", 'int': '1', 'float': '1.5', 'Decimal': '1.5', 'bool': '1'}
+    fills = lambda t: [{'sql_default': SQLDEF[t]}, {'sql_default': True}, {'volatile': True}, {'sql_default': SQLDEF[t], 'volatile': True}]
+    for ml in (None, 1, 2, 5):
+        for autostrip in (None, False):
+            for kind in ('Required', 'Optional'):
+                for f in fills('str'):
+                    o = dict(f)
+                    if ml is not None: o['max_len'] = ml
+                    if autostrip is not None: o['autostrip'] = autostrip
+                    out.append(_spec(kind, 'str', o))
+    for t, olist in (('int', [{}, {'min': enc(0)}, {'size': 8}, {'size': 8, 'unsigned': True, 'max': enc(100)}]),
+                     ('float', [{'min': enc(0), 'max': enc(1.5)}]), ('Decimal', [{'min': enc(Decimal('0.1')), 'max': enc(1)}]),
+                     ('bool', [{}])):
+        for o in olist:
+            for f in fills(t):
+                for kind in ('Required', 'Optional'):
+                    out.append(_spec(kind, t, dict(o, **f)))
+                    if t != 'bool': out.append(_spec(kind, t, dict(o, **f), py_check=ref.PY_CHECKS_FOR[t][-1]))
     # bool
     for kind in ('Required', 'Optional'):
         out.append(_spec(kind, 'bool'))
@@ -136,7 +156,7 @@ def grid():
                 pc = ref.PY_CHECKS_FOR[t][-1]
                 out.append(_spec('PrimaryKey', t, o, py_check=pc))
                 out.append(_spec('Required', t, dict(o, unique=True), py_check=pc))
-    # defaults: every candidate of a few declarations becomes the default (plain and callable)
+    # defaults: every near-bound candidate of a few declarations becomes the default (plain and callable)
     defo = [('int', {'min': enc(0)}), ('int', {'max': enc(0)}), ('int', {'min': enc(-2), 'max': enc(3)}), ('int', {'size': 8}),
             ('int', {'size': 8, 'unsigned': True}), ('float', {'min': enc(0)}), ('float', {'max': enc(0.0)}),
             ('float', {'min': enc(-1.5), 'max': enc(2.25)}), ('Decimal', {'min': enc(Decimal(0)), 'max': enc(Decimal('2.25'))}),
@@ -145,7 +165,8 @@ def grid():
         for kind in ('Required', 'Optional'):
             proto = _spec(kind, t, o, py_check='raise_neg' if t == 'int' and 'size' not in o else None)
             for v in ref.candidates(proto):
-                for call in (False, True):
+                if not ref.near_bound(proto, v): continue          # defaults on / next to / across the bounds only
+                for call in ((False, True) if kind == 'Required' or t != 'str' else (False,)):
                     s = dict(proto, default=enc(v))
                     if call: s['default_callable'] = True
                     if ref.decl_problem(s) is None: out.append(s)
@@ -169,7 +190,7 @@ def build(spec):
     db = orm.Database()
     o = spec['opts']
     kw = {}
-    for name in ('size', 'unsigned', 'max_len', 'autostrip', 'nullable', 'precision', 'scale', 'unique'):
+    for name in ('size', 'unsigned', 'max_len', 'autostrip', 'nullable', 'precision', 'scale', 'unique', 'sql_default', 'volatile'):
         if o.get(name) is not None: kw[name] = o[name]
     for name in ('min', 'max'):
         if o.get(name) is not None: kw[name] = dec(o[name])
@@ -229,6 +250,7 @@ class Runner(object):
         spec, E = self.spec, self.E
         if self.is_pk: return
         want, exp = ref.omitted_verdict(spec)
+        if want == 'unspecified': return
         with db_session:
             try: obj = E()
             except (ValueError, TypeError) as e:
@@ -401,6 +423,8 @@ def evaluate(spec, values, report, on_case=None):
     try:
         r = Runner(spec, report)
     except DeclRejected as e:
+        if want == 'unspecified':     # sql_default / volatile: the Python-side (implicit '') default is still validated
+            want = ref.omitted_verdict(dict(spec, opts={k: x for k, x in spec['opts'].items() if k not in ('sql_default', 'volatile')}))[0]
         if want == 'reject' and ('default' in spec or spec['kind'] == 'Optional'):
             # the (declared or implicit '') default itself violates the declaration: refusing it when the mapping is
             # generated is as good as refusing it at creation time
@@ -473,6 +497,7 @@ def check_decl(ctx, spec, values, classes=()):
             if co == 'float->Decimal' and Decimal(v) != Decimal(repr(v)): cl.append('coerced:float->Decimal:not_binary')
         if nt: cl.append('nontrivial')
         if spec.get('py_check'): cl.append('py_check')
+        if ref.db_filled(spec): cl.append('db_filled')
         if 'default' in spec: cl.append('has_default')
         if spec['opts'].get('unique') or spec['kind'] == 'PrimaryKey': cl.append('key')
         for b in ('min', 'max'):
@@ -520,7 +545,7 @@ def strategies():
             inr = st.one_of(st.integers(lo, hi), st.integers(max(lo, -3), min(hi, 3)), st.sampled_from([lo, hi, lo + 1, hi - 1]))
             for b in ('min', 'max'):
                 if draw(st.booleans()): o[b] = enc(draw(inr))
-            extra = draw(st.lists(st.one_of(big, inr), max_size=6))
+            extra = draw(st.lists(st.one_of(big, inr, inr.map(str), big.map(str), st.sampled_from(['x', '1x', '--1'])), max_size=8))
         elif t == 'float':
             for b in ('min', 'max'):
                 if draw(st.booleans()): o[b] = enc(draw(st.one_of(fl, st.integers(-3, 3))))
@@ -550,9 +575,15 @@ def strategies():
             o['unique'] = True
             if o.get('nullable') is False: del o['nullable']
         spec = {'kind': kind, 'type': t, 'opts': o}
+        if kind != 'PrimaryKey' and draw(st.integers(0, 5)) == 0:
+            fill = draw(st.sampled_from(['sql_default', 'sql_true', 'volatile', 'both']))
+            lit = {'str': "'zz'", 'int': '1', 'float': '1.5', 'Decimal': '1.5', 'bool': '1'}[t]
+            if fill in ('sql_default', 'both'): o['sql_default'] = lit
+            if fill == 'sql_true': o['sql_default'] = True
+            if fill in ('volatile', 'both'): o['volatile'] = True
         if draw(st.integers(0, 2)) == 0:
             spec['py_check'] = draw(st.sampled_from(ref.PY_CHECKS_FOR[t]))
-        if kind != 'PrimaryKey' and draw(st.integers(0, 3)) == 0:
+        if kind != 'PrimaryKey' and not ref.db_filled(spec) and draw(st.integers(0, 3)) == 0:
             pool = [v for v in ref.candidates(spec, extra) if v is not None]
             pool = [v for v in pool if not (v == '' and kind != 'Optional')]
             if pool:
@@ -625,7 +656,7 @@ MANIFEST = {
             'attribute defaults and get/exists/select/filter/where/E[v] on live SQLite and compared with an independent reference '
             'predicate for acceptance and the normalised value. Exhaustive for the grid, sampled beyond it.',
     'note': 'Exact-type values plus int -> float, int -> Decimal and float -> Decimal inputs (a float denotes the decimal number it '
-            'prints as); other coercions (str -> number, bool -> int, float -> int) are not asserted; int without size/unsigned asserted only inside '
+            'prints as); a canonical integer literal str(n) given to an int attribute denotes n, an unparseable str is rejected; other coercions (str -> float/Decimal, non-canonical strings, bool -> int, float -> int) are not asserted; for sql_default/volatile attributes a missing value (None/omitted) is not asserted; int without size/unsigned asserted only inside '
             'the signed 32-bit range; max_len=0, nan/inf, Decimal digits beyond precision/scale and non-SQLite providers are '
             'outside the asserted domain.',
     'technique': 'bounded-exhaustive declaration x boundary-value grid + hypothesis random declarations against a reference predicate',
